@@ -87,6 +87,10 @@ F14D_SITES = ("customasm::util::bigint::BigInt::", "customasm::util::bitvec")
 def f14d_abort(a):
     """the recorded finding F14d, identified by how and where the process dies: an allocation failure
     (not a panic, not a stack overflow) inside the size-driven loops of util::bigint / util::bitvec"""
+    if a.get("panic") == "attempt to add with overflow" and "src/util/bitvec.rs" in str(a.get("at", "")):
+        # the same cause seen under overflow checks: the output position (bank #outp + position) has no cap, the index
+        # arithmetic of the bit vector overflows before the allocation is attempted
+        return True
     if not a.get("died"):
         return False
     err = str(a.get("stderr", ""))
@@ -150,6 +154,13 @@ def run(chk):
     HEADER = "#ruledef\n{\n    nop => 0x00\n    ld {v: u8} => 0x10 @ v\n    emit {v} => v`8\n}\n#fn f(a) => a + 1\nx = 5\nlbl:\n"
     tprogs = [HEADER + fr % v for fr in FRAMES for v in VALUES]
     tprogs += [HEADER + fr % v for fr in FRAMES for v in ["TRACE"]]        # set by a define below
+    # bank definitions whose fields are near the top of usize: diagnosed or accepted, never a crash (F47)
+    for bits in (8, 16, 32, 1):
+        for field in ("#size", "#addr", "#outp", "#addr_end"):
+            for v in ("0x2000000000000000", "0x1fffffffffffffff", "0x800000000000000", "0xffffffffffffffff", "0x10000000000000000",
+                      "0x7fffffffffffffff", "0x4000000000000000"):
+                other = {"#size": "#addr 0, #outp 0", "#addr": "#size 0x10, #outp 0", "#outp": "#addr 0, #size 0x10", "#addr_end": "#addr 0, #outp 0"}[field]
+                tprogs.append("#bankdef a { #bits %d, %s, %s %s }\n#d%d 1\n" % (bits, other, field, v, bits if bits > 1 else 8))
     tops = [fw.asm_op([("main.asm", t)], defs=[("TRACE", "i1")] if t.endswith("TRACE\n") or "TRACE" in t else None) for t in tprogs]
     timpl = fw.run_oracle_resilient(tops, "c03t", timeout=3000)
     for t, a in zip(tprogs, timpl):
